@@ -54,11 +54,28 @@ def cases(rng, tier):
             w.tag = "window"
             cs.append(w)
     # multi-block / sub-block objects: implementation vs model only (the Spec oracle is single-block)
-    for _ in range(15 if tier == "quick" else 150):
+    for i in range(60 if tier == "quick" else 400):
         f, t, z, nsub, al = CG.obj_config(rng, 600)
+        if i % 2 == 0:
+            # alignment > 1 with a sub-block count that does not divide T/Al
+            al = rng.choice([2, 4, 8])
+            q = rng.choice([3, 5, 7])
+            t = al * q
+            nsub = rng.choice([2, q - 1])
+            z = 1
+            f = t * rng.range(1, 12)
         m = C.Case("enc_packets", [f, t, z, nsub, al, 3] + CG.rand_data(rng, f))
         m.tag = "multi"
         cs.append(m)
+    # larger blocks, checked through the packet relation on the REAL intermediate symbols (no reference solve):
+    # packet(ESI) = Enc[K', C, Tuple_rfc[K', ESI + K' - K]].  Includes the two (K', ISI) pairs whose seed y is
+    # 2^32 - 1 / 2^32 - 2 (the only ones below 2^24 + K'), found by inverting A modulo 2^32
+    cases.relation = []
+    pts = [(989, 3158229), (978, 3158229 - 11), (2195, 8192877), (989, 3158228), (1050, 5), (3015, (1 << 24) - 3016)]
+    pts += [(rng.choice([600, 811, 1002, 1673, 2000]), rng.below(1 << 23)) for _ in range(3 if tier == "quick" else 30)]
+    for k, isi in pts:
+        data = CG.rand_data(rng, k)
+        cases.relation.append((k, isi, data))
     return cs
 
 
@@ -84,8 +101,44 @@ def evaluate(cs, rep, tier):
             t = c.args[1]
             counter.append({"input": c.impl_line()[:800], "expected": f"RFC packet stream (first difference at value {pos}, i.e. packet {max(0, pos - 1) // (t + 2)})", "observed": " ".join(it[max(0, pos - 3) : pos + 6]), "oracle": "Spec.Code: Enc[K', C, Tuple[K', X + K' - K]] with C the solution of the RFC constraint system"})
         nrep += c.args[5] if c.tag == "first" else c.args[7]
+    # sub-blocked / multi-block objects: source packets against the Spec layout as well
+    mc = [(c, i) for c, i in zip(cs, impl) if c.tag == "multi" and i.startswith("1")]
+    mspec = C.run_model([C.Case("spec_layout_packets", c.args[:5] + c.args[6:]) for c, _ in mc])
+    for (c, i), sp in zip(mc, mspec):
+        f, t, z = c.args[0], c.args[1], c.args[2]
+        ks = CG.block_sizes(f, t, z)
+        it, st = i.split()[1:], sp.split()[1:]
+        # walk the implementation's list block by block: K source packets, then 3 repair packets to skip
+        pos_i = pos_s = 0
+        bad = False
+        for k in ks:
+            n = k * (t + 2)
+            if it[pos_i : pos_i + n] != st[pos_s : pos_s + n]:
+                bad = True
+                break
+            pos_i += n + c.args[5] * (t + 2)
+            pos_s += n
+        if bad:
+            counter.append({"input": c.impl_line()[:600], "expected": "source packet i carries source symbol i of RFC 4.4.1.2", "observed": "source packets differ from the Spec layout", "oracle": "Spec.Layout"})
+    # packet relation on the real intermediate symbols for larger blocks
+    rel = getattr(cases, "relation", [])
+    for k, isi, data in rel:
+        kp = next(x for x in __import__("props.C06", fromlist=["kprimes"]).kprimes() if x >= k)
+        esi = isi - (kp - k)
+        if esi < k or esi >= (1 << 24):
+            continue
+        for prof in (("release",) if k > 1100 else PROFILES):
+            ci, pi = C.run_impl([C.Case("intermediate", [1, 0, 0] + data), C.Case("repair_window", [k, 1, 1, 1, 1, 0, esi - k, 1] + data)], prof)
+            if not ci.startswith("1") or not pi.startswith("1"):
+                counter.append({"input": f"repair_window {k} 1 1 1 1 0 {esi - k} 1 <{k} data bytes>", "expected": "a repair packet", "observed": pi[:60], "profile": prof, "oracle": "C04"})
+                break
+            want = C.run_model([C.Case("spec_enc_from_c", [k, 1, esi] + [int(x) for x in ci.split()[1:]])])[0]
+            gotp = pi.split()
+            if want.split()[1:] != gotp[3:]:
+                counter.append({"input": f"repair_window {k} 1 1 1 1 0 {esi - k} 1 <{k} data bytes>", "expected": "Enc[K', C, Tuple[K', %d]] = %s" % (isi, want), "observed": " ".join(gotp[1:]), "profile": prof, "oracle": "RFC tuple and Enc on the real intermediate symbols"})
+                break
     return {"disagreements": dis, "counterexamples": counter,
-            "stats": {"evaluations": len(cs) * 4 + len(sc), "distinct_nontrivial": len(set(c.key() for c in cs if c.tag in ("first", "window"))),
+            "stats": {"evaluations": len(cs) * 4 + len(sc), "packet_relation_points": len(rel), "distinct_nontrivial": len(set(c.key() for c in cs if c.tag in ("first", "window"))),
                       "repair_packets_vs_spec": nrep,
                       "samples": [cs[min(9, len(cs) - 1)].impl_line()[:160] + " ... -> " + impl[min(9, len(cs) - 1)][:80]],
                       "input_distribution": {"K_values": len(set(c.args[0] // c.args[1] for c in cs if c.tag == "first")), "windows": sum(1 for c in cs if c.tag == "window"), "multi_block_objects": sum(1 for c in cs if c.tag == "multi")}}}
